@@ -325,7 +325,9 @@ Definition fits (e : ty) (v : val) : bool :=
   match e, v with
   | TBasic (KInt w) _, VInt z => in_int_range w z
   | TBasic (KUint w) _, VInt z => (0 <=? z)%Z && in_uint_range w (Z.to_N z)
-  | TBasic (KFloat b) _, VFloat z => (Z.abs z <=? float_max b * 1024)%Z     (* OverflowFloat: |x| > MaxFloat32 (no rounding first) *)
+  | TBasic (KFloat b) _, VFloat z =>
+      (* OverflowFloat: MaxFloat32 < |x| <= MaxFloat64 (no rounding first; an infinity does not overflow) *)
+      (Z.abs z <=? float_max b * 1024)%Z || (Z.abs z =? float_inf)%Z
   | _, _ => true
   end.
 
